@@ -35,7 +35,7 @@ def string_alphabet(compact, max_len):
         lens = [0, 1, 127, 128, 255, 256, 32767]
     out = ["a" * n for n in lens if n <= max_len]
     # multi-byte UTF-8: 2-, 3-, 4-byte code points alone and straddling the 127/128 boundary
-    out += ["é", "€", "\U0001f600", "\x00"]
+    out += ["é", "€", "\U0001f600", "\x00", "\ufeffbom"]  # (a leading U+FEFF is a character of the value, not a signature)
     if max_len >= 128:
         out += ["é" * 63 + "a", "é" * 64, "€" * 42 + "a", "\U0001f600" * 32]
     return out
